@@ -1,1 +1,534 @@
-(* stub: to be written *)
+(* Precision (property C09): the precision flag is honoured end to end.
+
+   (V) validators over the exported-model AST (Onnx.v): [no_double] / [no_single] with declarative
+       soundness AND completeness, [first_double] / [first_single] naming the first offending item;
+   (P) theorems about the float policy of the exporter, stated over gen/GenPrecision.v = the CURRENT
+       /repo code translated on every run (finite numpy-dtype enumeration x flag);
+   (P) the two jax_enable_x64 context managers (translated) restore the process-wide flag on every
+       exit, normal or exceptional, also nested;
+   (P) promotion float32 -> float64 is exact (every float32 value is a float64 value). *)
+From Coq Require Import ZArith Reals String List Bool Lia DecimalString.
+From J2O Require Import PyLib Dtype Onnx CastSem.
+From J2OGen Require Import GenPrecision.
+Import ListNotations.
+Local Open Scope Z_scope.
+Local Notation "a +++ b" := (String.append a b) (right associativity, at level 60).
+
+(* ====================================================================== (V) validators *)
+Definition is_double (z : Z) : bool := (z =? 11) || (z =? 15).     (* DOUBLE, COMPLEX128 *)
+Definition is_single (z : Z) : bool := (z =? 1) || (z =? 14).      (* FLOAT, COMPLEX64 *)
+
+Lemma is_double_false z : is_double z = false <-> z <> 11 /\ z <> 15.
+Proof. unfold is_double. rewrite orb_false_iff, !Z.eqb_neq. tauto. Qed.
+Lemma is_single_false z : is_single z = false <-> z <> 1 /\ z <> 14.
+Proof. unfold is_single. rewrite orb_false_iff, !Z.eqb_neq. tauto. Qed.
+
+(* every value a graph declares: inputs, initializers, outputs, value_info *)
+Definition graph_decls (g : ograph) : list vinfo := og_inputs g ++ og_inits g ++ og_outputs g ++ og_vinfos g.
+(* every node of the model: all graphs of the table (main graph + every If/Loop/Scan body at any depth)
+   and all function bodies *)
+Definition all_nodes (m : omodel) : list onode :=
+  flat_map og_nodes (om_graphs m) ++ flat_map of_nodes (om_functions m).
+(* integer attributes that name an element type: Cast.to, and dtype of RandomNormal/RandomUniform/EyeLike/... *)
+Definition is_dtype_attr (nm : string) : bool := String.eqb nm "to"%string || String.eqb nm "dtype"%string.
+
+Section Scan.
+  Variable bad : Z -> bool.
+
+  Definition vi_ok (vi : vinfo) : bool := negb (bad (vi_dtype vi)).
+  Definition attr_ok (op : string) (kv : string * attr) : bool :=
+    match snd kv with
+    | ATensor d _ _ => negb (bad d)
+    | AInt z => if is_dtype_attr (fst kv) then negb (bad z) else true
+    | AFloat | AFloats => if String.eqb op "Constant"%string then negb (bad 1) else true  (* Constant.value_float(s): a FLOAT tensor *)
+    | _ => true
+    end.
+  Definition node_ok (n : onode) : bool := forallb (attr_ok (on_op n)) (on_attrs n).
+  Definition graph_ok (g : ograph) : bool := forallb vi_ok (graph_decls g) && forallb node_ok (og_nodes g).
+  Definition fun_ok (f : ofunction) : bool := forallb node_ok (of_nodes f).
+  Definition model_ok (m : omodel) : bool := forallb graph_ok (om_graphs m) && forallb fun_ok (om_functions m).
+
+  (* declarative reading *)
+  Definition Clean (m : omodel) : Prop :=
+    (forall g vi, In g (om_graphs m) -> In vi (graph_decls g) -> bad (vi_dtype vi) = false) /\
+    (forall n nm d dims s, In n (all_nodes m) -> In (nm, ATensor d dims s) (on_attrs n) -> bad d = false) /\
+    (forall n nm z, In n (all_nodes m) -> In (nm, AInt z) (on_attrs n) -> nm = "to"%string \/ nm = "dtype"%string -> bad z = false) /\
+    (forall n nm, In n (all_nodes m) -> on_op n = "Constant"%string ->
+        In (nm, AFloat) (on_attrs n) \/ In (nm, AFloats) (on_attrs n) -> bad 1 = false).
+
+  Lemma in_all_nodes m n : In n (all_nodes m) <->
+    (exists g, In g (om_graphs m) /\ In n (og_nodes g)) \/ (exists f, In f (om_functions m) /\ In n (of_nodes f)).
+  Proof. unfold all_nodes. rewrite in_app_iff, !in_flat_map. tauto. Qed.
+
+  Lemma is_dtype_attr_true nm : is_dtype_attr nm = true <-> nm = "to"%string \/ nm = "dtype"%string.
+  Proof. unfold is_dtype_attr. rewrite orb_true_iff, !String.eqb_eq. tauto. Qed.
+
+  Definition NodeClean (n : onode) : Prop :=
+    (forall nm d dims s, In (nm, ATensor d dims s) (on_attrs n) -> bad d = false) /\
+    (forall nm z, In (nm, AInt z) (on_attrs n) -> nm = "to"%string \/ nm = "dtype"%string -> bad z = false) /\
+    (forall nm, on_op n = "Constant"%string -> In (nm, AFloat) (on_attrs n) \/ In (nm, AFloats) (on_attrs n) -> bad 1 = false).
+
+  Lemma node_ok_iff n : node_ok n = true <-> NodeClean n.
+  Proof.
+    unfold node_ok, NodeClean. rewrite forallb_forall. split.
+    - intro H. repeat split.
+      + intros nm d dims s Hin. specialize (H _ Hin). unfold attr_ok in H; simpl in H.
+        now apply negb_true_iff in H.
+      + intros nm z Hin Hnm. specialize (H _ Hin). unfold attr_ok in H; simpl in H.
+        rewrite (proj2 (is_dtype_attr_true nm) Hnm) in H. now apply negb_true_iff in H.
+      + intros nm Hop [Hin|Hin]; specialize (H _ Hin); unfold attr_ok in H; simpl in H;
+          rewrite Hop in H; simpl in H; now apply negb_true_iff in H.
+    - intros (H1 & H2 & H3) [nm a] Hin. unfold attr_ok; simpl.
+      destruct a; auto.
+      + destruct (is_dtype_attr nm) eqn:E; auto. apply is_dtype_attr_true in E.
+        now rewrite (H2 _ _ Hin E).
+      + destruct (String.eqb (on_op n) "Constant"%string) eqn:E; auto. apply String.eqb_eq in E.
+        now rewrite (H3 nm E (or_introl Hin)).
+      + destruct (String.eqb (on_op n) "Constant"%string) eqn:E; auto. apply String.eqb_eq in E.
+        now rewrite (H3 nm E (or_intror Hin)).
+      + now rewrite (H1 _ _ _ _ Hin).
+  Qed.
+
+  Theorem model_ok_iff m : model_ok m = true <-> Clean m.
+  Proof.
+    unfold model_ok, Clean. rewrite andb_true_iff, !forallb_forall. split.
+    - intros [HG HF].
+      assert (HN : forall n, In n (all_nodes m) -> NodeClean n).
+      { intros n Hn. apply node_ok_iff. apply in_all_nodes in Hn as [[g [Hg Hn]]|[f [Hf Hn]]].
+        - specialize (HG _ Hg). unfold graph_ok in HG. apply andb_true_iff in HG as [_ HG].
+          rewrite forallb_forall in HG. now apply HG.
+        - specialize (HF _ Hf). unfold fun_ok in HF. rewrite forallb_forall in HF. now apply HF. }
+      repeat split.
+      + intros g vi Hg Hvi. specialize (HG _ Hg). unfold graph_ok in HG. apply andb_true_iff in HG as [HG _].
+        rewrite forallb_forall in HG. specialize (HG _ Hvi). unfold vi_ok in HG. now apply negb_true_iff in HG.
+      + intros n nm d dims s Hn Hin. exact (proj1 (HN n Hn) _ _ _ _ Hin).
+      + intros n nm z Hn Hin Hnm. exact (proj1 (proj2 (HN n Hn)) _ _ Hin Hnm).
+      + intros n nm Hn Hop Hin. exact (proj2 (proj2 (HN n Hn)) nm Hop Hin).
+    - intros (H1 & H2 & H3 & H4).
+      assert (HN : forall n, In n (all_nodes m) -> node_ok n = true).
+      { intros n Hn. apply node_ok_iff. repeat split; intros; eauto. }
+      split.
+      + intros g Hg. unfold graph_ok. apply andb_true_iff. rewrite !forallb_forall. split.
+        * intros vi Hvi. unfold vi_ok. now rewrite (H1 _ _ Hg Hvi).
+        * intros n Hn. apply HN. apply in_all_nodes. left; eauto.
+      + intros f Hf. unfold fun_ok. rewrite forallb_forall. intros n Hn. apply HN.
+        apply in_all_nodes. right; eauto.
+  Qed.
+
+  (* ---- the first offending item, as text *)
+  Definition nat_str (n : nat) : string := NilZero.string_of_uint (Nat.to_uint n).
+  Definition decl_hits (where_ cat : string) (l : list vinfo) : list string :=
+    flat_map (fun vi => if vi_ok vi then [] else [where_ +++ ":"%string +++ cat +++ ":"%string +++ vi_name vi]) l.
+  Definition node_hits (where_ : string) (n : onode) : list string :=
+    flat_map (fun kv => if attr_ok (on_op n) kv then []
+                        else [where_ +++ ":"%string +++ on_op n +++ "("%string +++ on_name n +++ ").attr:"%string +++ fst kv]) (on_attrs n).
+  Definition graph_hits (g : ograph) : list string :=
+    let w := "graph"%string +++ nat_str (og_id g) in
+    decl_hits w "input"%string (og_inputs g) ++ decl_hits w "initializer"%string (og_inits g) ++
+    decl_hits w "output"%string (og_outputs g) ++ decl_hits w "value_info"%string (og_vinfos g) ++
+    flat_map (node_hits w) (og_nodes g).
+  Definition fun_hits (f : ofunction) : list string := flat_map (node_hits ("function "%string +++ of_name f)) (of_nodes f).
+  Definition model_hits (m : omodel) : list string :=
+    flat_map graph_hits (om_graphs m) ++ flat_map fun_hits (om_functions m).
+  Definition first_bad (m : omodel) : option string := hd_error (model_hits m).
+
+  Lemma flat_map_nil {A B} (f : A -> list B) l : flat_map f l = [] <-> forall x, In x l -> f x = [].
+  Proof.
+    induction l as [|a l IH]; simpl; [tauto|]. split.
+    - intros H. apply app_eq_nil in H as [Ha Hl]. intros x [<-|Hx]; auto. now apply IH.
+    - intros H. rewrite (H a (or_introl eq_refl)). apply IH. intros; apply H; auto.
+  Qed.
+
+  Lemma cond_hits_nil {A} (p : A -> bool) (d : A -> string) l :
+    flat_map (fun x => if p x then [] else [d x]) l = [] <-> forallb p l = true.
+  Proof.
+    rewrite flat_map_nil, forallb_forall. split; intros H x Hx; specialize (H x Hx).
+    - destruct (p x); [reflexivity|discriminate].
+    - now rewrite H.
+  Qed.
+
+  Lemma app_nil_iff {A} (l l' : list A) : l ++ l' = [] <-> l = [] /\ l' = [].
+  Proof. split; [apply app_eq_nil | intros [-> ->]; reflexivity]. Qed.
+  Lemma decl_hits_nil w c l : decl_hits w c l = [] <-> forallb vi_ok l = true.
+  Proof. apply cond_hits_nil. Qed.
+  Lemma node_hits_nil w n : node_hits w n = [] <-> node_ok n = true.
+  Proof. apply cond_hits_nil. Qed.
+  Lemma nodes_hits_nil w l : flat_map (node_hits w) l = [] <-> forallb node_ok l = true.
+  Proof.
+    rewrite flat_map_nil, forallb_forall.
+    split; intros H n Hn; specialize (H n Hn); [now apply node_hits_nil in H | now apply node_hits_nil].
+  Qed.
+
+  Lemma graph_hits_nil g : graph_hits g = [] <-> graph_ok g = true.
+  Proof.
+    unfold graph_hits, graph_ok, graph_decls. cbv zeta.
+    rewrite !forallb_app, !andb_true_iff, !app_nil_iff, !decl_hits_nil, nodes_hits_nil. tauto.
+  Qed.
+
+  Lemma fun_hits_nil f : fun_hits f = [] <-> fun_ok f = true.
+  Proof. apply nodes_hits_nil. Qed.
+
+  Theorem first_bad_none m : first_bad m = None <-> model_ok m = true.
+  Proof.
+    unfold first_bad, model_ok. rewrite andb_true_iff, !forallb_forall.
+    assert (E : hd_error (model_hits m) = None <-> model_hits m = []) by (destruct (model_hits m); simpl; split; intro; congruence).
+    rewrite E. unfold model_hits. split.
+    - intro H. apply app_eq_nil in H as [HG HF]. split.
+      + intros g Hg. apply graph_hits_nil. exact (proj1 (flat_map_nil _ _) HG g Hg).
+      + intros f Hf. apply fun_hits_nil. exact (proj1 (flat_map_nil _ _) HF f Hf).
+    - intros [HG HF].
+      rewrite (proj2 (flat_map_nil graph_hits _)), (proj2 (flat_map_nil fun_hits _)); auto.
+      + intros f Hf. apply fun_hits_nil; auto.
+      + intros g Hg. apply graph_hits_nil; auto.
+  Qed.
+End Scan.
+
+Definition no_double : omodel -> bool := model_ok is_double.
+Definition no_single : omodel -> bool := model_ok is_single.
+Definition first_double : omodel -> option string := first_bad is_double.
+Definition first_single : omodel -> option string := first_bad is_single.
+
+(* soundness + completeness, spelled out *)
+Theorem no_double_iff m : no_double m = true <->
+  (forall g vi, In g (om_graphs m) -> In vi (graph_decls g) -> vi_dtype vi <> 11 /\ vi_dtype vi <> 15) /\
+  (forall n nm d dims s, In n (all_nodes m) -> In (nm, ATensor d dims s) (on_attrs n) -> d <> 11 /\ d <> 15) /\
+  (forall n nm z, In n (all_nodes m) -> In (nm, AInt z) (on_attrs n) -> nm = "to"%string \/ nm = "dtype"%string -> z <> 11 /\ z <> 15).
+Proof.
+  unfold no_double. rewrite model_ok_iff. unfold Clean. split.
+  - intros (H1 & H2 & H3 & _). repeat split; intros; apply is_double_false; eauto.
+  - intros (H1 & H2 & H3). repeat split; intros; try (apply is_double_false; eauto); reflexivity.
+Qed.
+
+Theorem no_double_sound m : no_double m = true ->
+  (forall g vi, In g (om_graphs m) -> In vi (graph_decls g) -> vi_dtype vi <> 11 /\ vi_dtype vi <> 15) /\
+  (forall n nm d dims s, In n (all_nodes m) -> In (nm, ATensor d dims s) (on_attrs n) -> d <> 11 /\ d <> 15) /\
+  (forall n nm z, In n (all_nodes m) -> In (nm, AInt z) (on_attrs n) -> nm = "to"%string \/ nm = "dtype"%string -> z <> 11 /\ z <> 15).
+Proof. apply no_double_iff. Qed.
+
+Lemma forallb_false_ex {A} (p : A -> bool) l : forallb p l = false -> exists x, In x l /\ p x = false.
+Proof.
+  induction l as [|a l IH]; simpl; [discriminate|]. intro H. apply andb_false_iff in H as [H|H].
+  - exists a; auto.
+  - destruct (IH H) as (x & Hx & Hp). exists x; auto.
+Qed.
+
+Theorem no_double_complete m : no_double m = false ->
+  (exists g vi, In g (om_graphs m) /\ In vi (graph_decls g) /\ is_double (vi_dtype vi) = true) \/
+  (exists n nm a, In n (all_nodes m) /\ In (nm, a) (on_attrs n) /\ attr_ok is_double (on_op n) (nm, a) = false).
+Proof.
+  unfold no_double, model_ok. intro H.
+  assert (HN : forall n, In n (all_nodes m) -> node_ok is_double n = false ->
+               exists n nm a, In n (all_nodes m) /\ In (nm, a) (on_attrs n) /\ attr_ok is_double (on_op n) (nm, a) = false).
+  { intros n Hn Hb. apply forallb_false_ex in Hb as ([nm a] & Hk & Hb). exists n, nm, a. auto. }
+  apply andb_false_iff in H as [H|H].
+  - apply forallb_false_ex in H as (g & Hg & H). unfold graph_ok in H. apply andb_false_iff in H as [H|H].
+    + apply forallb_false_ex in H as (vi & Hvi & H). left. exists g, vi. repeat split; auto.
+      unfold vi_ok in H. now apply negb_false_iff in H.
+    + apply forallb_false_ex in H as (n & Hn & H). right. apply (HN n); auto.
+      apply in_all_nodes. left; eauto.
+  - apply forallb_false_ex in H as (f & Hf & H). apply forallb_false_ex in H as (n & Hn & H).
+    right. apply (HN n); auto. apply in_all_nodes. right; eauto.
+Qed.
+
+Theorem first_double_none m : first_double m = None <-> no_double m = true.
+Proof. apply first_bad_none. Qed.
+
+Theorem no_single_iff m : no_single m = true <->
+  (forall g vi, In g (om_graphs m) -> In vi (graph_decls g) -> vi_dtype vi <> 1 /\ vi_dtype vi <> 14) /\
+  (forall n nm d dims s, In n (all_nodes m) -> In (nm, ATensor d dims s) (on_attrs n) -> d <> 1 /\ d <> 14) /\
+  (forall n nm z, In n (all_nodes m) -> In (nm, AInt z) (on_attrs n) -> nm = "to"%string \/ nm = "dtype"%string -> z <> 1 /\ z <> 14) /\
+  (forall n nm, In n (all_nodes m) -> on_op n = "Constant"%string ->
+      ~ In (nm, AFloat) (on_attrs n) /\ ~ In (nm, AFloats) (on_attrs n)).
+Proof.
+  unfold no_single. rewrite model_ok_iff. unfold Clean. split.
+  - intros (H1 & H2 & H3 & H4). repeat split; try (intros; apply is_single_false; eauto).
+    + intros Hin. specialize (H4 n nm H H0 (or_introl Hin)). discriminate.
+    + intros Hin. specialize (H4 n nm H H0 (or_intror Hin)). discriminate.
+  - intros (H1 & H2 & H3 & H4). repeat split; intros; try (apply is_single_false; eauto).
+    destruct (H4 n nm H H0) as [Ha Hb]. tauto.
+Qed.
+
+Theorem first_single_none m : first_single m = None <-> no_single m = true.
+Proof. apply first_bad_none. Qed.
+
+(* ---- "recursively through all graphs": every body reachable from the main graph or from a function body
+   through graph attributes, at any depth, is a member of the table and therefore scanned *)
+Inductive reach (m : omodel) : ograph -> Prop :=
+ | reach_main g : graph_by_id m 0 = Some g -> reach m g
+ | reach_sub g n i g' : reach m g -> In n (og_nodes g) -> In i (node_subgraph_ids n) ->
+                        graph_by_id m i = Some g' -> reach m g'
+ | reach_fun f n i g' : In f (om_functions m) -> In n (of_nodes f) -> In i (node_subgraph_ids n) ->
+                        graph_by_id m i = Some g' -> reach m g'.
+
+Lemma reach_in_table m g : reach m g -> In g (om_graphs m).
+Proof. intro H; destruct H; unfold graph_by_id in *; eapply nth_error_In; eauto. Qed.
+
+Theorem no_double_reach m : no_double m = true -> forall g, reach m g ->
+  (forall vi, In vi (graph_decls g) -> vi_dtype vi <> 11 /\ vi_dtype vi <> 15) /\
+  (forall n nm d dims s, In n (og_nodes g) -> In (nm, ATensor d dims s) (on_attrs n) -> d <> 11 /\ d <> 15) /\
+  (forall n nm z, In n (og_nodes g) -> In (nm, AInt z) (on_attrs n) -> nm = "to"%string \/ nm = "dtype"%string -> z <> 11 /\ z <> 15).
+Proof.
+  intros H g Hr. apply reach_in_table in Hr. apply no_double_sound in H as (H1 & H2 & H3).
+  assert (HN : forall n, In n (og_nodes g) -> In n (all_nodes m)) by (intros; apply in_all_nodes; left; eauto).
+  repeat split; intros; eauto.
+  - eapply H1; eauto.
+  - eapply H1; eauto.
+  - eapply (H2 n); eauto.
+  - eapply (H2 n); eauto.
+  - eapply (H3 n); eauto.
+  - eapply (H3 n); eauto.
+Qed.
+
+(* every graph attribute resolves inside the table (checked on each converted export) *)
+Definition table_closed (m : omodel) : bool :=
+  forallb (fun n => forallb (fun i => Nat.ltb i (List.length (om_graphs m))) (node_subgraph_ids n)) (all_nodes m).
+Lemma table_closed_sound m : table_closed m = true ->
+  forall n i, In n (all_nodes m) -> In i (node_subgraph_ids n) -> exists g, graph_by_id m i = Some g.
+Proof.
+  unfold table_closed. rewrite forallb_forall. intros H n i Hn Hi. specialize (H n Hn).
+  rewrite forallb_forall in H. specialize (H i Hi). apply Nat.ltb_lt in H.
+  unfold graph_by_id. destruct (nth_error (om_graphs m) i) eqn:E; eauto.
+  apply nth_error_None in E. lia.
+Qed.
+
+(* non-vacuity: a two-level model with a DOUBLE Cast hidden in a Loop body inside a function is rejected *)
+Example hidden_cast_model : omodel :=
+  mkOM 10 [(""%string, 23)]
+    [mkOG 0 None [mkVI "x"%string 1 (Some [DInt 3])] [] [mkON "F"%string "custom"%string "call"%string ["x"%string] ["y"%string] []]
+          [mkVI "y"%string 1 (Some [DInt 3])] [];
+     mkOG 1 None [] [] [mkON "Cast"%string ""%string "c"%string ["a"%string] ["b"%string] [("to"%string, AInt 11)]] [] []]
+    [mkOF "F"%string "custom"%string ["x"%string] ["y"%string]
+          [mkON "Loop"%string ""%string "l"%string ["x"%string] ["y"%string] [("body"%string, AGraph 1)]] [] []].
+Example hidden_cast_rejected : no_double hidden_cast_model = false /\
+  first_double hidden_cast_model = Some "graph1:Cast(c).attr:to"%string /\ table_closed hidden_cast_model = true.
+Proof. vm_compute. auto. Qed.
+Example clean_model_accepted :
+  no_double (mkOM 10 [] [mkOG 0 None [mkVI "x"%string 1 None] [mkVI "w"%string 1 (Some [DInt 2])]
+     [mkON "Constant"%string ""%string "k"%string [] ["c"%string] [("value"%string, ATensor 1 [] None)]] [mkVI "y"%string 1 None] []] []) = true.
+Proof. vm_compute. reflexivity. Qed.
+
+(* ====================================================================== (P) the float policy *)
+(* reference classification of the numpy enumeration (independent of the dumped numpy predicates) *)
+Definition np_class (d : npdtype) : dclass :=
+  match d with
+  | NP_bool => CBool
+  | NP_int8 | NP_int16 | NP_int32 | NP_int64 | NP_uint8 | NP_uint16 | NP_uint32 | NP_uint64 => CInt
+  | NP_float16 | NP_bfloat16 | NP_float32 | NP_float64 => CFloat
+  | NP_complex64 | NP_complex128 => CComplex
+  end.
+(* reference: the ONNX element type with exactly the same representation *)
+Definition ref_onnx (d : npdtype) : dtype :=
+  match d with
+  | NP_bool => DT_BOOL | NP_int8 => DT_INT8 | NP_int16 => DT_INT16 | NP_int32 => DT_INT32 | NP_int64 => DT_INT64
+  | NP_uint8 => DT_UINT8 | NP_uint16 => DT_UINT16 | NP_uint32 => DT_UINT32 | NP_uint64 => DT_UINT64
+  | NP_float16 => DT_FLOAT16 | NP_bfloat16 => DT_BFLOAT16 | NP_float32 => DT_FLOAT | NP_float64 => DT_DOUBLE
+  | NP_complex64 => DT_COMPLEX64 | NP_complex128 => DT_COMPLEX128
+  end.
+Definition np_int_info (d : npdtype) : option (bool * Z) :=
+  match d with
+  | NP_int8 => Some (true, 8) | NP_int16 => Some (true, 16) | NP_int32 => Some (true, 32) | NP_int64 => Some (true, 64)
+  | NP_uint8 => Some (false, 8) | NP_uint16 => Some (false, 16) | NP_uint32 => Some (false, 32) | NP_uint64 => Some (false, 64)
+  | _ => None
+  end.
+
+Lemma all_npdtypes_complete d : In d all_npdtypes.
+Proof. destruct d; simpl; tauto. Qed.
+Lemma npdtype_eqb_eq a b : npdtype_eqb a b = true <-> a = b.
+Proof. destruct a, b; vm_compute; split; congruence. Qed.
+
+(* the library answers agree with the reference (bfloat16 is NOT np.floating for the installed numpy/ml_dtypes:
+   it falls through to from_numpy and keeps its type) *)
+Lemma lib_agrees_with_reference : forall d,
+  np_from_numpy d = Some (ref_onnx d) /\
+  np_is_integer d = match np_class d with CInt => true | _ => false end /\
+  np_is_complexfloating d = match np_class d with CComplex => true | _ => false end /\
+  np_is_floating d = match np_class d with CFloat => negb (npdtype_eqb d NP_bfloat16) | _ => false end /\
+  dtype_class (ref_onnx d) = np_class d /\ int_info (ref_onnx d) = np_int_info d.
+Proof. destruct d; vm_compute; repeat split. Qed.
+
+Definition policy (d : npdtype) (flag : bool) : option dtype := numpy_dtype_to_ir_with_float_policy (Some d) flag.
+
+Theorem policy_total : forall d flag, exists r, policy d flag = Some r.
+Proof. destruct d, flag; vm_compute; eauto. Qed.
+
+(* single precision: the policy is the identity embedding; in particular a float64 numpy value that reaches it
+   DOES come out as DOUBLE, so "no DOUBLE in a single-precision export" needs that no float64 payload reaches
+   the policy: that part is checked on every export by [no_double]. *)
+Theorem policy_single_identity : forall d, policy d false = Some (ref_onnx d).
+Proof. destruct d; reflexivity. Qed.
+Theorem policy_single : forall d, policy d false = Some DT_DOUBLE <-> d = NP_float64.
+Proof. destruct d; vm_compute; split; congruence. Qed.
+Theorem policy_single_complex : forall d, policy d false = Some DT_COMPLEX128 <-> d = NP_complex128.
+Proof. destruct d; vm_compute; split; congruence. Qed.
+
+(* double precision: float32 and float64 become DOUBLE; float16 / bfloat16 keep their width (as the docstring says),
+   complex64 keeps single-precision components *)
+Theorem policy_double : forall d, np_class d = CFloat -> d <> NP_float16 -> d <> NP_bfloat16 -> policy d true = Some DT_DOUBLE.
+Proof. destruct d; vm_compute; intros; congruence. Qed.
+Theorem policy_double_iff : forall d, policy d true = Some DT_DOUBLE <-> d = NP_float32 \/ d = NP_float64.
+Proof. destruct d; vm_compute; split; intro H; try congruence; auto; destruct H; congruence. Qed.
+Theorem policy_double_exceptions :
+  policy NP_float16 true = Some DT_FLOAT16 /\ policy NP_bfloat16 true = Some DT_BFLOAT16 /\
+  policy NP_complex64 true = Some DT_COMPLEX64.
+Proof. repeat split. Qed.
+Theorem policy_double_never_float : forall d, policy d true <> Some DT_FLOAT.
+Proof. destruct d; vm_compute; congruence. Qed.
+Theorem policy_default : forall flag, numpy_dtype_to_ir_with_float_policy None flag = Some (if flag then DT_DOUBLE else DT_FLOAT).
+Proof. destruct flag; reflexivity. Qed.
+
+Theorem policy_class_preserved : forall d flag r, policy d flag = Some r -> dtype_class r = np_class d.
+Proof. destruct d, flag; vm_compute; intros r H; injection H as <-; reflexivity. Qed.
+Theorem ints_keep_or_widen : forall d flag r sb, policy d flag = Some r -> np_int_info d = Some sb -> int_info r = Some sb.
+Proof. destruct d, flag; vm_compute; intros r sb H; injection H as <-; auto. Qed.
+Theorem bool_int_exact : forall d flag, np_class d = CBool \/ np_class d = CInt -> policy d flag = Some (ref_onnx d).
+Proof. destruct d, flag; vm_compute; intros [H|H]; congruence. Qed.
+Theorem dtype_to_ir_is_policy : forall o flag, dtype_to_ir o flag = numpy_dtype_to_ir_with_float_policy o flag.
+Proof. intros [d|] flag; [destruct d|]; destruct flag; reflexivity. Qed.
+
+(* the second mapping, _to_ir_dtype_from_np (layout adapter inputs, materialised input_params): no flag *)
+Theorem to_ir_from_np_floats : forall d, np_is_floating d = true ->
+  to_ir_dtype_from_np d = Some (if npdtype_eqb d NP_float64 then DT_DOUBLE else DT_FLOAT).
+Proof. destruct d; vm_compute; congruence. Qed.
+Theorem to_ir_from_np_double_iff : forall d, to_ir_dtype_from_np d = Some DT_DOUBLE <-> d = NP_float64.
+Proof. destruct d; vm_compute; split; congruence. Qed.
+Theorem to_ir_from_np_ints_exact : forall d, np_class d = CBool \/ np_class d = CInt -> to_ir_dtype_from_np d = Some (ref_onnx d).
+Proof. destruct d; vm_compute; intros [H|H]; congruence. Qed.
+(* class preservation is FALSE of it: complex values are declared FLOAT (and float16 is declared FLOAT) *)
+Theorem to_ir_from_np_class_refuted : exists d r, to_ir_dtype_from_np d = Some r /\ dtype_class r <> np_class d.
+Proof. exists NP_complex64, DT_FLOAT. vm_compute. split; congruence. Qed.
+Theorem to_ir_from_np_class_partial : forall d r, np_class d <> CComplex -> to_ir_dtype_from_np d = Some r -> dtype_class r = np_class d.
+Proof. destruct d; vm_compute; intros r Hc H; try congruence; injection H as <-; reflexivity. Qed.
+
+(* promotion helpers: the two copies agree; promotion happens exactly for numpy-floating payloads in double mode *)
+Theorem promote_copies_agree : forall d flag, maybe_promote_float_array d flag = ctx_promote_float_array flag d.
+Proof. destruct d, flag; reflexivity. Qed.
+Theorem promote_spec : forall d flag,
+  maybe_promote_float_array d flag = Some (if flag && np_is_floating d then NP_float64 else d).
+Proof. destruct d, flag; reflexivity. Qed.
+Theorem promote_no_single_left : forall d r, maybe_promote_float_array d true = Some r -> r <> NP_float32 /\ r <> NP_float16.
+Proof. destruct d; vm_compute; intros r H; injection H as <-; split; congruence. Qed.
+
+(* constants bound through IRContext.bind_const_for_var *)
+Theorem bind_const_single : forall d, bind_const_declared false d = Some DT_DOUBLE <-> d = NP_float64.
+Proof. destruct d; vm_compute; split; congruence. Qed.
+Theorem bind_const_double : forall d, np_is_floating d = true -> bind_const_declared true d = Some DT_DOUBLE.
+Proof. destruct d; vm_compute; congruence. Qed.
+Theorem bind_const_double_never_float : forall d, bind_const_declared true d <> Some DT_FLOAT.
+Proof. destruct d; vm_compute; congruence. Qed.
+
+(* initializers created through IRBuilder.add_initializer_from_scalar/_array: in single mode never float64 *)
+Theorem builder_single_no_double : forall d r, builder_initializer_payload false d = Some r -> r <> NP_float64.
+Proof. destruct d; vm_compute; intros r H; injection H as <-; congruence. Qed.
+Theorem builder_single_spec : forall d, builder_initializer_payload false d = Some (if np_is_floating d then NP_float32 else d).
+Proof. destruct d; reflexivity. Qed.
+Theorem builder_double_untouched : forall d, builder_initializer_payload true d = Some d.
+Proof. destruct d; reflexivity. Qed.
+(* ... but complex128 is not covered by the down-cast *)
+Theorem builder_single_complex128_kept : builder_initializer_payload false NP_complex128 = Some NP_complex128.
+Proof. reflexivity. Qed.
+
+(* closed-over jaxpr constants (default_float = _np_float_dtype flag, as at the call site) *)
+Theorem closed_const_total : forall c t (flag : bool), exists r, closed_const_payload c t (if flag then NP_float64 else NP_float32) flag = Some r.
+Proof. intros c [[]|] flag; destruct c; destruct flag; vm_compute; eauto. Qed.
+Theorem closed_const_single : forall c t r, closed_const_payload c t NP_float32 false = Some r ->
+  (r = NP_float64 <-> c = NP_float64 /\ t = Some NP_float64).
+Proof.
+  intros c t r H. destruct c; destruct t as [[]|]; vm_compute in H; injection H as <-;
+    (split; intro H; [try congruence; auto | destruct H; congruence]).
+Qed.
+Theorem closed_const_double : forall c t r, closed_const_payload c t NP_float64 true = Some r ->
+  np_is_floating r = true -> r = NP_float64.
+Proof.
+  intros c t r H. destruct c; destruct t as [[]|]; vm_compute in H; injection H as <-;
+    vm_compute; congruence.
+Qed.
+
+(* post-processing with promote=true leaves no float32 payload *)
+Theorem postprocess_no_float32 : forall d, postprocess_payload true d <> NP_float32.
+Proof. destruct d; vm_compute; congruence. Qed.
+Theorem postprocess_spec : forall p d, postprocess_payload p d = if p && npdtype_eqb d NP_float32 then NP_float64 else d.
+Proof. reflexivity. Qed.
+Theorem postprocess_off_identity : forall d, postprocess_payload false d = d.
+Proof. reflexivity. Qed.
+Theorem postprocess_traversal : postprocess_visits_initializers && postprocess_visits_constant_nodes &&
+  postprocess_visits_node_outputs && postprocess_recurses_graph_attrs && postprocess_visits_functions &&
+  function_scope_inherits_flag = true.
+Proof. reflexivity. Qed.
+
+(* ====================================================================== (P) the x64 context managers *)
+(* cfg = process-wide jax_enable_x64; a body maps the state it starts in to (state it leaves, raised?) *)
+Theorem temporary_x64_spec : forall enabled body cfg, temporary_x64 enabled body cfg = (cfg, snd (body enabled)).
+Proof.
+  intros e body s. unfold temporary_x64.
+  assert (E : (if negb (Bool.eqb e s) then e else s) = e) by (destruct e, s; reflexivity).
+  rewrite E. destruct (body e) as [s2 r]. simpl. destruct s2, s; reflexivity.
+Qed.
+Theorem force_jax_x64_spec : forall target body cfg,
+  force_jax_x64 target body cfg = ((if Bool.eqb cfg target then fst (body target) else cfg), snd (body target)).
+Proof.
+  intros t body s. unfold force_jax_x64.
+  assert (E : (if negb (Bool.eqb s t) then t else s) = t) by (destruct t, s; reflexivity).
+  rewrite E. destruct (body t) as [s2 r]. simpl. destruct (Bool.eqb s t); reflexivity.
+Qed.
+
+(* the public entry point: whatever conversion and post-processing do to the flag, however they exit *)
+Theorem x64_restored : forall flag convert post prev, fst (to_onnx_x64 flag convert post prev) = prev.
+Proof. intros. unfold to_onnx_x64. now rewrite temporary_x64_spec. Qed.
+Theorem x64_exception_propagates : forall flag convert post prev,
+  snd (to_onnx_x64 flag convert post prev) = snd (body_seq (force_jax_x64 flag convert) post flag).
+Proof. intros. unfold to_onnx_x64. now rewrite temporary_x64_spec. Qed.
+(* the conversion itself runs with the flag equal to enable_double_precision *)
+Theorem x64_convert_sees_flag : forall flag convert post prev,
+  to_onnx_x64 flag convert post prev =
+  (prev, snd (let '(c, r) := convert flag in if r then (c, true) else post c)).
+Proof.
+  intros. unfold to_onnx_x64. rewrite temporary_x64_spec. f_equal. unfold body_seq.
+  rewrite force_jax_x64_spec. rewrite Bool.eqb_reflx. simpl. destruct (convert flag) as [c r]. simpl.
+  destruct r; reflexivity.
+Qed.
+(* nesting: a to_onnx call made while another conversion is running (e.g. from the traced callable) restores the
+   outer flag, and the outer call restores the caller's *)
+Theorem x64_restored_nested : forall f1 f2 pre c2 p2 rest post prev,
+  fst (to_onnx_x64 f1 (body_seq pre (body_seq (to_onnx_x64 f2 c2 p2) rest)) post prev) = prev /\
+  forall s, fst (to_onnx_x64 f2 c2 p2 s) = s.
+Proof. intros. split; [apply x64_restored | intro; apply x64_restored]. Qed.
+Theorem temporary_x64_nested : forall a b body s, fst (temporary_x64 a (temporary_x64 b body) s) = s.
+Proof. intros. now rewrite temporary_x64_spec. Qed.
+(* the inner manager alone restores only if its body does (it compares the value it SAW, not the current one) *)
+Theorem force_restores_if_body_does : forall t body s, (forall s', fst (body s') = s') -> fst (force_jax_x64 t body s) = s.
+Proof.
+  intros t body s H. rewrite force_jax_x64_spec. simpl. destruct (Bool.eqb s t) eqn:E; auto.
+  rewrite H. symmetry. now apply Bool.eqb_prop.
+Qed.
+Theorem force_alone_not_robust : exists t body s, fst (force_jax_x64 t body s) <> s.
+Proof. exists true, (fun _ => (false, false)), true. vm_compute. congruence. Qed.
+
+(* ====================================================================== (P) promotion is exact *)
+Definition f32_fmt : fmt := (24, -149, 127).
+Definition f64_fmt : fmt := (53, -1074, 1023).
+Lemma f32_values_are_f64_values : forall x, fin_fmt f32_fmt x -> fin_fmt f64_fmt x.
+Proof. intros x. apply fmt_fits_incl. reflexivity. Qed.
+
+Theorem promotion_exact : forall v, in_dom DT_FLOAT v ->
+  cast DT_FLOAT DT_DOUBLE v = Some v /\ in_dom DT_DOUBLE v /\ cast DT_DOUBLE DT_FLOAT v = Some v.
+Proof.
+  intros v Hv. unfold in_dom in Hv. simpl in Hv. destruct v as [| |f| |]; try contradiction.
+  assert (Hd : in_ffmt f64_fmt f).
+  { destruct f; simpl in *; auto. now apply f32_values_are_f64_values. }
+  assert (Hc64 : fcast f64_fmt f = f).
+  { destruct f; simpl in *; auto. now apply fround_id. }
+  assert (Hc32 : fcast f32_fmt f = f).
+  { destruct f; simpl in *; auto. now apply fround_id. }
+  unfold cast. simpl. fold f64_fmt f32_fmt. rewrite Hc64, Hc32. repeat split; auto.
+Qed.
+(* and the narrowing direction is NOT exact: there are float64 values that are not float32 values *)
+Theorem demotion_not_exact : ~ (forall x, fin_fmt f64_fmt x -> fin_fmt f32_fmt x).
+Proof.
+  intro H. specialize (H (Raux.bpow Zaux.radix2 200)).
+  assert (Hin : fin_fmt f64_fmt (Raux.bpow Zaux.radix2 200)).
+  { split; [apply Rgt_not_eq, Raux.bpow_gt_0|]. split.
+    - apply Generic_fmt.generic_format_bpow. cbv [fexp_of FLT.FLT_exp f64_fmt fprec femin fst snd]. lia.
+    - rewrite Rabs_pos_eq by apply Raux.bpow_ge_0. apply Raux.bpow_lt. cbv [f64_fmt femax snd]. lia. }
+  destruct (H Hin) as (_ & _ & Hb). rewrite Rabs_pos_eq in Hb by apply Raux.bpow_ge_0.
+  apply Raux.lt_bpow in Hb. cbv [f32_fmt femax snd] in Hb. lia.
+Qed.
